@@ -167,6 +167,40 @@ def cases():
                         return t >> pdt.mutate(z=e) >> pdt.select(pdt.C.z), str(e.dtype())
 
                     out.append((cid, mk))
+    # case expressions: the static type joins the branch types; the exported column has it even when every value comes from one branch
+    def case_family():
+        import pydiverse.transform as pdt
+
+        shapes = {
+            "float_then_int_else_only": lambda t: pdt.when(t.i > 1000).then(t.f).otherwise(t.i),
+            "int_then_float_else_only": lambda t: pdt.when(t.i > 1000).then(t.i).otherwise(t.f),
+            "int_then_only_float_else": lambda t: pdt.when(t.k > 0).then(t.i).otherwise(t.f),
+            "float_lit_then_int_lit_else_only": lambda t: pdt.when(t.i > 1000).then(0.5).otherwise(0),
+            "int_lit_then_only_float_lit_else": lambda t: pdt.when(t.k > 0).then(1).otherwise(0.5),
+            "two_branches_int_float_int": lambda t: pdt.when(t.i > 1000).then(t.i).when(t.i > 2000).then(t.f).otherwise(t.k),
+            "narrow_then_wide_else": lambda t: pdt.when(t.k > 2).then(t.j).otherwise(t.i),
+            "string_branches": lambda t: pdt.when(t.k > 2).then(t.s).otherwise("x"),
+            "bool_branches": lambda t: pdt.when(t.k > 2).then(t.b).otherwise(False),
+            "no_default_float": lambda t: pdt.when(t.k > 2).then(t.f),
+            "map_int_to_float": lambda t: t.k.map({1: 0.5, 2: 1.5}, default=t.i),
+            "map_default_only": lambda t: t.k.map({100: 0.5}, default=t.i),
+        }
+        fam = []
+        for name, f in shapes.items():
+            def mk(t, f=f):
+                e = f(t)
+                return t >> pdt.mutate(z=e) >> pdt.select(pdt.C.z), str(e.dtype())
+
+            fam.append((f"case.{name}", mk))
+
+            def mk2(t, f=f):
+                e = f(t)
+                return t >> pdt.mutate(z=e) >> pdt.filter(t.k == 1) >> pdt.select(pdt.C.z), str(e.dtype())
+
+            fam.append((f"case.{name}.one_row", mk2))
+        return fam
+
+    out += case_family()
     return out
 
 
